@@ -359,19 +359,19 @@ package gldap
 //@ functype gldap.Option
 //@   params f Option, o interface{}
 //@   requires iref(o) != 0 && optInv(o)
-//@   ensures  optInv(o)
+//@   ensures  optInv(o) && unchangedExcept("all(responseOptions), all(controlOptions), all(routeOptions), all(configOptions), all(messageOptions), all(generalOptions), all(testOptions)", o)
 //@   panics false
 //@   tags C16
 //@   modifies all(responseOptions), all(controlOptions), all(routeOptions), all(configOptions), all(messageOptions), all(generalOptions), all(testOptions)
 //@ func gldap.applyOpts
 //@   inline literal
 //@   requires iref(opts) != 0 && optInv(opts)
-//@   ensures  optInv(opts)
+//@   ensures  optInv(opts) && unchangedExcept("all(responseOptions), all(controlOptions), all(routeOptions), all(configOptions), all(messageOptions), all(generalOptions), all(testOptions)", opts)
 //@   panics false
 //@   modifies all(responseOptions), all(controlOptions), all(routeOptions), all(configOptions), all(messageOptions), all(generalOptions), all(testOptions)
 //@   tags C16
 //@ loop 1
-//@   invariant optInv(opts)
+//@   invariant optInv(opts) && unchangedExcept("all(responseOptions), all(controlOptions), all(routeOptions), all(configOptions), all(messageOptions), all(generalOptions), all(testOptions)", opts)
 
 // Message.GetID: every message kind built by the decoder embeds baseMessage.
 //@ pure msgID(m Message) int64 = cond(typeIs(m, *SearchMessage), m.(*SearchMessage).id, cond(typeIs(m, *SimpleBindMessage), m.(*SimpleBindMessage).id, cond(typeIs(m, *ExtendedOperationMessage), m.(*ExtendedOperationMessage).id,
@@ -467,30 +467,38 @@ package gldap
 // ---- control constructors, mux registration (C16 totality) --------------------------------
 //@ func gldap.NewControlString
 //@   panics false
+//@   modifies nothing
 //@   tags C16
 //@ func gldap.NewControlManageDsaIT
 //@   panics false
+//@   modifies nothing
 //@   tags C16
 //@ func gldap.NewControlMicrosoftNotification
 //@   panics false
+//@   modifies nothing
 //@   tags C16
 //@ func gldap.NewControlMicrosoftServerLinkTTL
 //@   panics false
+//@   modifies nothing
 //@   tags C16
 //@ func gldap.NewControlMicrosoftShowDeleted
 //@   panics false
+//@   modifies nothing
 //@   tags C16
 //@ func gldap.NewControlPaging
 //@   panics false
+//@   modifies nothing
 //@   tags C16
 //@ func gldap.NewControlBeheraPasswordPolicy
-//@   ensures err == nil ==> result0 != nil && result0.error <= 8 && result0.error >= -1
+//@   ensures err == nil ==> result0 != nil && fresh(result0) && result0.error <= 8 && result0.error >= -1
 //@   ensures err == nil ==> !(result0.grace >= 0 && result0.expire >= 0) && !(result0.grace >= 0 && result0.error >= 0) && !(result0.expire >= 0 && result0.error >= 0)
 //@   panics false
+//@   modifies nothing
 //@   tags C14 C16
 //@ func gldap.NewMux
 //@   ensures err == nil && result0 != nil && len(result0.routes) == 0 && isNilIface(result0.defaultRoute) && isNilIface(result0.unbindRoute)
 //@   panics false
+//@   modifies nothing
 //@   tags C16 C03
 //@ pure muxFree(m *Mux) bool = m != nil && !held(&m.mu)
 //@ func (*gldap.Mux).Bind
@@ -819,7 +827,7 @@ package gldap
 //@   exit     !isNilIface(c.netConn) && G_wgcnt[&c.requestsWg] >= 0 && unchanged(G_held) && unchanged(G_rheld)
 //@   exit     forallref(W, *sync.WaitGroup, W != &c.requestsWg ==> G_wgcnt[W] == old(G_wgcnt[W]))
 //@   panics any
-//@   modifies conn.netConn, conn.reader, conn.writer, all(ber.Packet), cell(*ber.Packet), G_bufdata, G_pktnew
+//@   modifies conn.netConn, conn.reader, conn.writer, packet.validated, all(ber.Packet), cell(*ber.Packet), G_bufdata, G_pktnew
 //@   tags C06 C10 C13
 //@ loop 1
 //@   invariant requestID == G_nread[c] && !G_lastunbind[c] && !G_tlspending[c]
